@@ -42,15 +42,27 @@ CSS_CHOICES = [None, "", " \t", ".a{}", "\n .b { color: red }  ", " .c{}\x85",
 NAMES = ["Btn", "Card", "Café", "Dup", "Dup", "X", "A1b2c3", "Ünï", "T_", "Z9_abcdef", "js", "css", "Ωmega"]
 
 
+def hook_data(mode, kind, val):
+    """What get_js_data() / get_css_data() of a generated class return for the tag argument v / w (None = {}): hooks mode True ->
+    different dicts for JS and CSS ({"v": v} / {"w": w}); mode "shared" -> the same key for both ({"x": v} / {"x": w}), so that the JS
+    and the CSS variables of one render (v == w) or of different renders serialise equally and get the SAME input hash."""
+    if not mode or not val:
+        return None
+    return {("x" if mode == "shared" else "v" if kind == "js" else "w"): val}
+
+
 def make_class(spec, classes=()):
     """spec = {name, module, js, css, hooks[, base]}; a fresh Component subclass (never registered in /repo's own modules).
+    hooks = False | True | "shared" (see hook_data).
     `base` = index of an earlier class of the same table to inherit from (js/css = None then mean "inherited")."""
     from django_components import Component
     d = {"template": "<div>%s</div>" % spec["name"], "js": spec["js"], "css": spec["css"], "__module__": spec["module"],
          "get_context_data": lambda self, *a, **k: {}}
-    if spec["hooks"]:
-        d["get_js_data"] = lambda self, *a, v=None, w=None, **k: ({"v": v} if v else {})
-        d["get_css_data"] = lambda self, *a, v=None, w=None, **k: ({"w": w} if w else {})
+    mode = spec["hooks"]
+    if mode:
+        d["_c19_hooks"] = mode
+        d["get_js_data"] = lambda self, *a, v=None, w=None, **k: (hook_data(mode, "js", v) or {})
+        d["get_css_data"] = lambda self, *a, v=None, w=None, **k: (hook_data(mode, "css", w) or {})
     base = classes[spec["base"]] if spec.get("base") is not None else Component
     return type(spec["name"], (base,), d)
 
@@ -69,7 +81,7 @@ class Pool:
             self.classes.append(make_class(sp, self.classes))
         # what the library itself reports as the component's code / hooks (public attributes; inheritance resolved)
         self.codes = [{"js": c.js, "css": c.css} for c in self.classes]
-        self.hooks = [hasattr(c, "get_js_data") for c in self.classes]
+        self.hooks = [getattr(c, "_c19_hooks", False) if hasattr(c, "get_js_data") else False for c in self.classes]
         self.tags = ["c19p%dc%d" % (self.id, i) for i in range(len(specs))]
         for t, c in zip(self.tags, self.classes):
             registry.register(t, c)
@@ -115,7 +127,7 @@ def random_specs(rng, n):
         name = rng.choice(NAMES)
         _MODULE_SEQ[0] += 1   # distinct import paths by construction (class identity = import path)
         specs.append({"name": name, "module": "verif_c19_m%d_%d" % (_MODULE_SEQ[0], rng.randrange(1000)), "js": rng.choice(JS_CHOICES),
-                      "css": rng.choice(CSS_CHOICES), "hooks": rng.random() < 0.6,
+                      "css": rng.choice(CSS_CHOICES), "hooks": rng.choice([False, False, True, True, "shared", "shared", "shared"]),
                       "base": rng.randrange(i) if i and rng.random() < 0.25 else None})
     # always one pair of classes with the same NAME in different modules (distinct hashes) and different code
     a, b = rng.sample(range(n), 2)
@@ -282,7 +294,7 @@ class Runner:
         self.announced = []     # every raw url announced so far
         self.stats = {"evicted": 0, "announced_after_evict": 0, "ok200": 0, "renders": 0, "same_class_rerendered_after_evict": 0,
                       "served_after_other_entry_evicted": 0, "split_stale_announced": 0, "split_stale_unserved": 0, "split_stale_document_error": 0}
-        self.stats.update({"ticks": 0, "seconds_advanced": 0, "served_300s_or_more_after_first_cached": 0})
+        self.stats.update({"vars_input_hash_shared_by_js_and_css": 0, "ticks": 0, "seconds_advanced": 0, "served_300s_or_more_after_first_cached": 0})
         self.first_cached_at = {}          # PATH_INFO -> faked time when the entry was first owed since its last eviction
         self.stored_since_clear = set()    # cache keys the history made the library store since the last clear()
         self.evicted_before = False
@@ -298,18 +310,24 @@ class Runner:
             if ci < 0:
                 continue
             cls = pool.classes[ci]
-            for kind, data in (("js", {"v": v} if v else None), ("css", {"w": w} if w else None)):
+            for kind, data in (("js", hook_data(pool.hooks[ci], "js", v)), ("css", hook_data(pool.hooks[ci], "css", w))):
                 code = pool.codes[ci][kind]
                 if code is None or not code.strip():
                     continue
                 out.add((cls, kind, None))
-                if data is not None and pool.hooks[ci]:
+                if data is not None:
                     out.add((cls, kind, input_hash(data)))
         return out
 
     def note_rendered(self, insts):
         """Instances were rendered (their scripts cached before anything is emitted)."""
-        for cls, kind, ih in self.entitlements(insts):
+        ent = self.entitlements(insts)
+        for cls, kind, ih in ent:
+            # the variables of one kind have the input hash of variables of the OTHER kind that are cached (same render or earlier)
+            other = "js" if kind == "css" else "css"
+            if ih and ((cls, other, ih) in ent or path_of(cls, other, ih) in self.entitled):
+                self.stats["vars_input_hash_shared_by_js_and_css"] += 1
+        for cls, kind, ih in ent:
             self.first_cached_at.setdefault(path_of(cls, kind, ih), CLOCK.offset)
             self.entitled[path_of(cls, kind, ih)] = key_of(cls, kind, ih)
             self.stored_since_clear.add(key_of(cls, kind, ih))
@@ -569,11 +587,10 @@ def run_adaptive(pool, ops, rng):
 # ------------------------------------------------------------------------------------------------------------------
 def inst_term(pool, inst):
     ci, v, w = inst
-    jd = None if v is None else input_hash({"v": v})
-    cd = None if w is None else input_hash({"w": w})
-    hooks = ci >= 0 and pool.hooks[ci]
-    if not hooks:
-        jd = cd = None
+    mode = pool.hooks[ci] if ci >= 0 else False
+    jd, cd = hook_data(mode, "js", v), hook_data(mode, "css", w)
+    jd = None if jd is None else input_hash(jd)
+    cd = None if cd is None else input_hash(cd)
     return "(%s, %s, %s)" % (pool.cdef_name(ci), copt(jd, cstr), copt(cd, cstr))
 
 
@@ -681,7 +698,7 @@ def adversarial_paths(pool, rng, known_ih, n):
 
 
 def known_input_hashes():
-    return [input_hash({"v": v}) for v in (1, 2, 3)] + [input_hash({"w": w}) for w in (1, 2, 3)]
+    return [input_hash({k: n}) for k in ("v", "w", "x") for n in (1, 2, 3)]
 
 
 TICKS = [2, 299, 301, 3600, 86400]     # seconds of faked time (Django's default cache TIMEOUT is 300)
@@ -731,7 +748,7 @@ def random_history(pool, rng, length):
 
 # small exhaustive alphabet over a fixed two-class pool
 SMALL_SPECS = [
-    {"name": "Alpha", "module": "verif_c19_small", "js": " a() ", "css": ".a{}", "hooks": True},
+    {"name": "Alpha", "module": "verif_c19_small", "js": " a() ", "css": ".a{}", "hooks": "shared"},
     {"name": "Beta", "module": "verif_c19_small", "js": "b()", "css": None, "hooks": False},
     {"name": "Gamma", "module": "verif_c19_small", "js": None, "css": " .g{}\n", "hooks": True},
 ]
@@ -739,8 +756,8 @@ SMALL_SPECS = [
 
 def small_alphabet():
     return [
-        ("render", "document", [(0, None, None)], "headbody"),
-        ("render", "fragment", [(0, 1, 1)], "headbody"),
+        ("render", "document", [(0, None, 2)], "headbody"),       # CSS variables = the JS variables of the third letter's render
+        ("render", "fragment", [(0, 1, 1)], "headbody"),          # JS and CSS variables serialise equally: one input hash, two entries
         ("render", "fragment", [(1, None, None), (0, 2, None), (2, None, 1)], "placeholders"),
         ("body", [(0, 1, None), (1, None, None), (2, None, None)], "template"),
         ("deps", "fragment", "all", False, "headbody"),
@@ -753,10 +770,10 @@ def small_alphabet():
 
 def small_concretise(pool, seq):
     a, b, g = pool.classes
-    ih = input_hash({"v": 1})
+    ih = input_hash({"x": 1})
     probes = [PREFIX + a._class_hash + ".js", PREFIX + a._class_hash + ".css", PREFIX + a._class_hash + "." + ih + ".js",
               PREFIX + b._class_hash + ".js", PREFIX + b._class_hash + ".css", PREFIX + a._class_hash + ".js:" + ih,
-              PREFIX + a._class_hash + "." + input_hash({"w": 1}) + ".css", PREFIX + g._class_hash + ".css",
+              PREFIX + a._class_hash + "." + ih + ".css", PREFIX + a._class_hash + "." + input_hash({"x": 2}) + ".css", PREFIX + g._class_hash + ".css",
               PREFIX + g._class_hash + "." + input_hash({"w": 1}) + ".css", PREFIX + g._class_hash + ".js"]
     ops, nb = [], 0
     for n, o in enumerate(seq):
@@ -806,6 +823,12 @@ CORPUS = [
              ["render", "fragment", [[0, None, 1]], "placeholders"], ["tick", 301], ["getlive"], ["tick", 86400], ["getlive"],
              ["body", [[0, 2, 2]], "single"], ["tick", 299], ["deps", "fragment", [0], False, "headbody"], ["tick", 2], ["getlive"],
              ["deps", "document", [0], False, "middleware"], ["getlive"]]},
+    # seed C19f (one helper for JS and CSS variables whose "already cached" test looks at the JS entry): JS and CSS variables with the SAME
+    # input hash - in one render, and CSS variables equal to the JS variables of an EARLIER render
+    {"name": "js-and-css-vars-same-input-hash", "specs": [{"name": "Th", "module": "verif_c19_corpus", "js": "th()", "css": ".th{}", "hooks": "shared"}],
+     "ops": [["render", "fragment", [[0, 1, 1]], "headbody"], ["getlive"], ["render", "fragment", [[0, 2, 3]], "placeholders"], ["getlive"],
+             ["render", "fragment", [[0, 3, 2]], "headbody"], ["getlive"], ["render", "document", [[0, None, 1], [0, 1, None]], "headbody"], ["getlive"],
+             ["clear"], ["body", [[0, 2, None]], "single"], ["body", [[0, None, 2]], "single"], ["deps", "fragment", [0, 1], False, "headbody"], ["getlive"]]},
     # a class with CSS only / JS only
     {"name": "css-only-js-only", "specs": [{"name": "OnlyCss", "module": "verif_c19_corpus", "js": None, "css": ".o{}", "hooks": True},
                                            {"name": "OnlyJs", "module": "verif_c19_corpus", "js": "o()", "css": "  ", "hooks": True}],
@@ -1040,7 +1063,7 @@ def run(tier, seed):
         rule="histories: every sequence up to length %d over a 9-letter alphabet (document/fragment renders, template render, "
              "render_dependencies in both modes, clear, delete, probe requests; 299 s of faked time between any two of them and 2 s before the requests that follow a render) on a fixed 3-class table (js+css, js only, css only), plus %d seeded random histories "
              "(3-10 macro-ops plus faked-clock advances of 2/299/301/3600/86400 s, 3-7 generated classes per table, always two with the same name in different modules, js/css in {None, empty, blank, padded with ASCII/Unicode whitespace, non-ASCII, "
-             "end-tag}, non-ASCII and duplicate class names, input-hash hooks) with adaptive requests: every announced URL (raw, as emitted), other "
+             "end-tag}, non-ASCII and duplicate class names, get_js_data/get_css_data hooks returning different or equal dicts = distinct or shared input hashes) with adaptive requests: every announced URL (raw, as emitted), other "
              "methods, and adversarial paths from valid/invalid hashes, kinds, input hashes incl. the key separator ':'; routing: all strings up to "
              "length %d over {a . / : js} after the endpoint prefix + adversarial paths; strip: 4-letter exhaustive to length 3 + random. "
              "Non-trivial history = an entry of a rendered class was evicted, the SAME class object was rendered again later and the render announced a URL, "
